@@ -309,6 +309,11 @@ def run(ctx):
         e = fr.call_expr(t, b)
         ok, _ = fcc.guarded(b, lambda fct, e=e: fct[0] == "call" and fct[1].endswith("HashSet::<T, S, A>::contains") and fct[3] is False
                             and A.same(fct[2][0], e[2][0]) and A.same(fct[2][1], e[2][1]))
+        if not ok:
+            # `if !seen.insert(x) { return None }`: the insert itself is the test - a repeat leaves the walk
+            rep = fcc.edges_where(lambda fct, b=b: fct[0] == "call" and fct[1].endswith("HashSet::<T, S, A>::insert") and fct[3] is False and fct[2] and A.same(fct[2][0], e[2][0]))
+            loop_hdrs = {h_ for h_, _ in fc.loops()}
+            ok = bool(rep) and all(not (A.reachable_tagged(fc, s_) & loop_hdrs) for a_, s_ in rep)
         ctx.check(ok, "C08.7", "follow_cnames:fresh-target", "seen.insert(target) only when !seen.contains(target) (else return None)",
                   "the visited set is not checked before following a CNAME", fc.loc(b))
 
